@@ -100,8 +100,12 @@ func (r *rule) compile() error {
 		escSL += `\`
 	}
 
+	// segStart is true when the next character begins a path segment.
+	segStart := true
 	for scan.Peek() != scanner.EOF {
 		ch := scan.Next()
+		atSegStart := segStart
+		segStart = string(ch) == sl
 		if ch == '*' {
 			if scan.Peek() == '*' {
 				// is some flavor of "**"
@@ -110,6 +114,7 @@ func (r *rule) compile() error {
 				// Treat **/ as ** so eat the "/"
 				if string(scan.Peek()) == sl {
 					scan.Next()
+					segStart = true
 				}
 
 				if scan.Peek() == scanner.EOF {
@@ -121,6 +126,11 @@ func (r *rule) compile() error {
 					// the .* will eat everything, even /'s
 					regStr += "(.*" + escSL + ")?"
 				}
+			} else if next := scan.Peek(); atSegStart && (next == scanner.EOF || string(next) == sl) {
+				// "*" is a whole segment: segments are never empty, so
+				// it must not match the nothing that follows the slash
+				// of a directory probe ("dir/").
+				regStr += "[^" + escSL + "]+"
 			} else {
 				// is "*" so map it to anything but "/"
 				regStr += "[^" + escSL + "]*"
